@@ -4,5 +4,5 @@
 cd "$(dirname "$0")/.."
 for d in seeded/*/; do
   s=$(basename $d)
-  VERIF_NO_MIRI=1 VERIF_SCALE=${VERIF_SCALE:-0.3} tools/try_patch.sh $d/patch.diff C05 C06 C07 C08 C09 C10 C13 C14 C15 C16 C17 2>&1 | grep '^==' | cut -c1-260 | sed "s/^/MATRIX $s /"
+  VERIF_NO_MIRI=1 VERIF_NO_WASM=1 VERIF_SCALE=${VERIF_SCALE:-0.3} tools/try_patch.sh $d/patch.diff C05 C06 C07 C08 C09 C10 C13 C14 C15 C16 C17 2>&1 | grep '^==' | cut -c1-260 | sed "s/^/MATRIX $s /"
 done
